@@ -144,6 +144,23 @@ def encLoop (px py : Nat) (msg : Bytes) (ord : Order) : Nat → Bytes → Option
 
 def ordOf (s : String) : Order := if s = "c1c2c3" then .c1c2c3 else .c1c3c2
 
+/-- `sm2obj <d> <op>…` : a sequence of operations on one key object; every operation judged on its own -/
+def sm2obj (sm2sign sm2verify sm2enc sm2dec : List String → String) (args : List String) : String :=
+  match args with
+  | d :: ops =>
+    match natOf d with
+    | none => "bad-op"
+    | some dn =>
+      let (px, py) := enc (smul dn G)
+      "/".intercalate (ops.map fun a =>
+        match a.splitOn ":" with
+        | ["s", uid, msg, rnd] => sm2sign [d, uid, msg, rnd]
+        | ["v", uid, msg, r, s] => sm2verify [h32 px, h32 py, uid, msg, r, s]
+        | ["e", mode, msg, rnd] => sm2enc [h32 px, h32 py, mode, msg, rnd]
+        | ["d", mode, ct] => sm2dec [d, mode, ct]
+        | _ => "bad-op")
+  | _ => "bad-op"
+
 /-- judge ops (used by ./check when the code's signature differs from the model's): does the SPEC accept what the
     code produced, under the public key [d]G?  `sm2signok <d> <uid> <msg> <r> <s>`, `sm2signderok <d> <msg> <sig>` -/
 def sm2signok (args : List String) : String :=
@@ -262,6 +279,7 @@ def sm2Dispatch (toks : List String) : Option String :=
   | "sm2enc" :: r => some (sm2enc r) | "sm2dec" :: r => some (sm2dec r)
   | "sm2verifye" :: r => some (sm2verifye r)
   | "sm2signok" :: r => some (sm2signok r) | "sm2signderok" :: r => some (sm2signderok r)
+  | "sm2obj" :: r => some (sm2obj sm2sign sm2verify sm2enc sm2dec r)
   | "sm2kex" :: r => some (sm2kex r) | "sm2kexbad" :: r => some (sm2kexbad r)
   | _ => none
 
